@@ -34,6 +34,9 @@ def scenarios(tier):
     add("probe succeeds while another caller asks", "breaker", BRK, PROBE, 11, [[["success"]], [["allow"]]], b3)
     add("probe fails while another caller asks", "breaker", BRK, PROBE, 11, [[["failure", "AUTH"]], [["allow"]]], b3)
     add("probe cancelled while another caller asks", "breaker", BRK, PROBE, 11, [[["cancel"]], [["allow"], ["state"]]], b2)
+    add("half-open: a success racing a failure", "breaker", BRK, PROBE, 11, [[["success"]], [["failure", "TRANSIENT"]]], b3)
+    add("half-open: two successes and a state read", "breaker", BRK, PROBE, 11, [[["success"]], [["success"], ["state"]]], b2)
+    add("half-open: failure vs cancel vs allow", "breaker", BRK, PROBE, 11, [[["failure", "AUTH"]], [["cancel"]], [["allow"]]], b2)
     add("closed: failure+allow vs allow+success", "breaker", dict(BRK, thr=2), [], 1,
         [[["failure", "TRANSIENT"], ["allow"]], [["allow"], ["success"]]], b2)
     add("open before the timeout: allow vs failure vs state", "breaker", BRK, OPENED, 3, [[["allow"]], [["failure", "TRANSIENT"]], [["state"]]], b2)
